@@ -226,11 +226,40 @@ def lazylist_methods(chk, repo):
                "l[n] on an infinite list hangs", F, n.lineno,
                sample={"site": ast.unparse(n)[:30], "guard": guard})
     # open-ended slice stays lazy
-    lazy_slice = any(
-        isinstance(n, ast.If) and ast.unparse(n.test).replace(" ", "") ==
-        "stopisNone" and any(isinstance(m, ast.FunctionDef)
-                             for m in ast.walk(n))
-        for owner in closure for n in ast.walk(owner))
+    from .c13 import slice_bound_aliases
+
+    def is_stop(e, al):
+        return (isinstance(e, ast.Name) and al.get(e.id) == "stop") or (
+            isinstance(e, ast.Attribute) and e.attr == "stop")
+
+    def absent_arm(node, al):
+        """the statements run when the slice has no end (the test may be
+        `end is None`, `not end`, or their negations with the arms swapped)"""
+        t = node.test
+        if isinstance(t, ast.Compare) and len(t.ops) == 1 and isinstance(
+                t.comparators[0], ast.Constant) and t.comparators[
+                0].value is None and is_stop(t.left, al):
+            if isinstance(t.ops[0], (ast.Is, ast.Eq)):
+                return node.body
+            if isinstance(t.ops[0], (ast.IsNot, ast.NotEq)):
+                return node.orelse
+        if isinstance(t, ast.UnaryOp) and isinstance(t.op, ast.Not) \
+                and is_stop(t.operand, al):
+            return node.body
+        if is_stop(t, al):
+            return node.orelse
+        return None
+
+    lazy_slice = False
+    for owner in closure:
+        al = slice_bound_aliases(owner)
+        for n in ast.walk(owner):
+            arm = absent_arm(n, al) if isinstance(n, ast.If) else None
+            if arm:
+                lazy_slice |= any(
+                    isinstance(m, (ast.FunctionDef, ast.GeneratorExp,
+                                   ast.Lambda))
+                    for b2 in arm for m in ast.walk(b2))
     gi = methods["__getitem__"]
     chk.ob("C14.open-slice-lazy", "LazyList.__getitem__:stop is None",
            lazy_slice, "l[n:] must return a generator-backed lazy list", F,
